@@ -909,4 +909,206 @@ theorem C18_mintMsgs (price : Coin) (b : Nat) (featured : Bool) (dev : Option Ad
   · cases h
   · cases h; exact ⟨by omega, rfl⟩
 
+/-- (proof engineering) the kernel must never be asked to put `mintMsgs …` / `mulFloor …` in weak head normal form
+(symbolic division by 10^18 explodes), so the proofs about `mint` / `airdrop` walk the `do` block with these generic
+lemmas instead of unfolding `bind` into a `match`. -/
+theorem bind_ok {ε α β : Type} {x : Except ε α} {f : α → Except ε β} {y : β} (h : (x >>= f) = .ok y) :
+    ∃ a, x = .ok a ∧ f a = .ok y := by
+  cases x with
+  | error e => cases h
+  | ok a => exact ⟨a, rfl, h⟩
+
+theorem throw_bind_ne {ε α β : Type} {e : ε} {f : α → Except ε β} {y : β} : ((throw e : Except ε α) >>= f) ≠ .ok y := by
+  intro h; cases h
+
+theorem bne_false_eq {a b : Nat} (h : ¬ (a != b) = true) : a = b := by
+  cases hd : decide (a = b) with
+  | true => exact of_decide_eq_true hd
+  | false => exact absurd (by simp [bne, of_decide_eq_false hd]) h
+
+/-- a public mint on a vending / open-edition minter splits the minter's price by the factory's CURRENT `mint_fee_bps`
+(and, open edition, pays the developer share to the CURRENT `dev_fee_address`) -/
+theorem C18_observed_mint (P : Params) (r r' : MinterRec) (now : Nat) (funds : List Coin) (ms : List Msg)
+    (h : mint P r now funds = .ok (r', ms)) (hk : r.kind ≠ .base) :
+    ∃ b, P.mintFeeBps = some b ∧ mintMsgs r.price b r.kind.isFeatured P.dev = .ok ms ∧
+      mayPay funds r.price.denom = .ok r.price.amount := by
+  unfold mint at h
+  rw [if_neg hk] at h
+  by_cases htm : r.kind = .tokenMerge
+  · rw [if_pos htm] at h; cases h
+  rw [if_neg htm] at h
+  cases hb : P.mintFeeBps with
+  | none => rw [hb] at h; cases h
+  | some b =>
+    rw [hb] at h
+    dsimp only at h
+    by_cases h1 : now < r.start
+    · rw [if_pos h1] at h; exact absurd h throw_bind_ne
+    rw [if_neg h1] at h
+    by_cases h2 : r.mintable = some 0
+    · rw [if_pos h2] at h; exact absurd h throw_bind_ne
+    rw [if_neg h2] at h
+    obtain ⟨pay, hpay, h⟩ := bind_ok h
+    by_cases h3 : (pay != r.price.amount) = true
+    · rw [if_pos h3] at h; exact absurd h throw_bind_ne
+    rw [if_neg h3] at h
+    obtain ⟨m, hm, h⟩ := bind_ok h
+    have hms : m = ms := by
+      have := (Except.ok.inj h); exact (Prod.mk.inj this).2
+    have hp : pay = r.price.amount := by
+      cases hd : decide (pay = r.price.amount) with
+      | true => exact of_decide_eq_true hd
+      | false => exact absurd (by simp [bne, of_decide_eq_false hd]) h3
+    exact ⟨b, rfl, hms ▸ hm, hp ▸ hpay⟩
+
+/-- base minter: the payment must equal the CAPTURED price times the factory's CURRENT `mint_fee_bps` -/
+theorem C18_observed_mint_base (P : Params) (r r' : MinterRec) (now : Nat) (funds : List Coin) (ms : List Msg)
+    (h : mint P r now funds = .ok (r', ms)) (hk : r.kind = .base) :
+    ∃ b, P.mintFeeBps = some b ∧ mustPay funds NATIVE = .ok (r.price.amount * b / 10000) ∧ r' = r := by
+  unfold mint at h
+  rw [if_pos hk] at h
+  cases hb : P.mintFeeBps with
+  | none => rw [hb] at h; cases h
+  | some b =>
+    rw [hb] at h
+    try dsimp only at h
+    obtain ⟨sent, hsent, h⟩ := bind_ok h
+    try dsimp only at h
+    by_cases h3 : (mulFloor r.price.amount (bps b) != sent) = true
+    · rw [if_pos h3] at h; exact absurd h throw_bind_ne
+    rw [if_neg h3] at h
+    obtain ⟨m, hm, h⟩ := bind_ok h
+    have hr : r = r' := (Prod.mk.inj (Except.ok.inj h)).1
+    have hs := bne_false_eq h3
+    rw [C18_bps_bridge] at hs
+    exact ⟨b, rfl, hs ▸ hsent, hr.symm⟩
+
+/-- an airdrop (`MintTo`) charges the factory's CURRENT airdrop price and splits it by the CURRENT airdrop fee bps -/
+theorem C18_observed_airdrop (P : Params) (r r' : MinterRec) (funds : List Coin) (ms : List Msg)
+    (h : airdrop P r funds = .ok (r', ms)) :
+    ∃ price b, P.airdropPrice = some price ∧ P.airdropBps = some b ∧
+      mayPay funds price.denom = .ok price.amount ∧ mintMsgs price b r.kind.isFeatured P.dev = .ok ms := by
+  unfold airdrop at h
+  by_cases hk : r.kind = .base
+  · rw [if_pos hk] at h; exact absurd h throw_bind_ne
+  rw [if_neg hk] at h
+  try dsimp only at h
+  cases hp : P.airdropPrice with
+  | none => rw [hp] at h; cases h
+  | some price =>
+    rw [hp] at h
+    try dsimp only at h
+    cases hb : P.airdropBps with
+    | none => rw [hb] at h; cases h
+    | some b =>
+      rw [hb] at h
+      try dsimp only at h
+      by_cases h2 : r.mintable = some 0
+      · rw [if_pos h2] at h; exact absurd h throw_bind_ne
+      rw [if_neg h2] at h
+      by_cases h4 : (r.kind.isOe && decide (price.amount = 0) && r.numTokens.isNone) = true
+      · rw [if_pos h4] at h; exact absurd h throw_bind_ne
+      rw [if_neg h4] at h
+      obtain ⟨pay, hpay, h⟩ := bind_ok h
+      by_cases h3 : (pay != price.amount) = true
+      · rw [if_pos h3] at h; exact absurd h throw_bind_ne
+      rw [if_neg h3] at h
+      obtain ⟨m, hm, h⟩ := bind_ok h
+      have hms : m = ms := (Prod.mk.inj (Except.ok.inj h)).2
+      have hpe := bne_false_eq h3
+      exact ⟨price, b, rfl, rfl, hpe ▸ hpay, hms ▸ hm⟩
+
+/-- `UpdatePerAddressLimit` is accepted only within the factory's CURRENT `max_per_address_limit` -/
+theorem C18_observed_pal (P : Params) (r r' : MinterRec) (limit : Nat) (h : setPal P r limit = .ok r') :
+    ∃ m, P.maxPal = some m ∧ 0 < limit ∧ limit ≤ m ∧ r'.pal = limit := by
+  simp only [setPal, bind, Except.bind, pure, Except.pure, throw, throwThe, MonadExceptOf.throw] at h
+  repeat' split at h
+  all_goals first | cases h | skip
+  all_goals simp_all
+  all_goals omega
+
+/-- `Shuffle` needs at least the factory's CURRENT shuffle fee -/
+theorem C18_observed_shuffle (P : Params) (r : MinterRec) (funds : List Coin) (ms : List Msg)
+    (h : shuffle P r funds = .ok ms) :
+    ∃ fee pay, P.shuffleFee = some fee ∧ mayPay funds NATIVE = .ok pay ∧ fee.amount ≤ pay := by
+  simp only [shuffle, Sg1.checkedFairBurn, bind, Except.bind, pure, Except.pure, throw, throwThe, MonadExceptOf.throw] at h
+  cases hs : P.shuffleFee with
+  | none => simp [hs] at h; repeat' split at h
+            all_goals first | cases h | skip
+  | some fee =>
+    cases hm : mayPay funds NATIVE with
+    | error x => simp [hs, hm] at h; repeat' split at h
+                 all_goals first | cases h | skip
+    | ok pay =>
+      refine ⟨fee, pay, rfl, rfl, ?_⟩
+      by_cases hlt : pay < fee.amount
+      · simp [hs, hm, hlt] at h; repeat' split at h
+        all_goals first | cases h | skip
+      · omega
+
+/-- `UpdateMintPrice` is accepted only at or above the factory's CURRENT minimum mint price -/
+theorem C18_observed_min_price (P : Params) (r r' : MinterRec) (now price : Nat) (h : setPrice P r now price = .ok r') :
+    ∃ m, P.minMintPrice = some m ∧ m.amount ≤ price ∧ r'.price.amount = price := by
+  simp only [setPrice, bind, Except.bind, pure, Except.pure, throw, throwThe, MonadExceptOf.throw] at h
+  repeat' split at h
+  all_goals first | cases h | skip
+  all_goals simp_all
+  all_goals omega
+
+/-- `UpdateStartTradingTime(Some t)` is accepted only within the factory's CURRENT `max_trading_offset_secs` after the
+minter's start time (the base minter has no such bound) -/
+theorem C18_observed_offset (P : Params) (r : MinterRec) (now t : Nat)
+    (h : updateStartTradingTime P r now (some t) = .ok ()) (hk : r.kind ≠ .base) :
+    now ≤ t ∧ t ≤ r.start + P.offset * 1000000000 := by
+  simp only [updateStartTradingTime, nanos] at h
+  repeat' split at h
+  all_goals first | cases h | skip
+  all_goals simp_all
+  all_goals omega
+
+/-! ### values captured at creation stay -/
+
+/-- after ANY history, a base minter's price is still the `min_mint_price` its factory had when it was created, unless
+... nothing: no operation of the model rewrites a base minter's price (`setPrice` refuses base minters). Stated for one
+step; histories follow by induction with `C18_captured` for updates. -/
+theorem C18_captured_base_price (P : Params) (r r' : MinterRec) (now price : Nat) (hk : r.kind = .base) :
+    setPrice P r now price ≠ .ok r' := by
+  simp [setPrice, hk, MinterKind.isVending, MinterKind.isOe, MinterKind.idx, bind, Except.bind, throw, throwThe,
+    MonadExceptOf.throw]
+
+/-- the open-edition cap: a minter created without `num_tokens` stores the factory's `max_token_limit` of that moment
+(the wl-flex variant stores nothing: unlimited) -/
+theorem C18_captured_oe_cap (e : Env) (q : OeParams) (a : CreateArgs) (r : MinterRec) (ms : List Msg)
+    (h : create e (.o q) a = .ok (r, ms)) (hn : a.numTokens = none) :
+    r.mintable = if r.kind = .openEditionFlex then none else some q.ext.maxTokenLimit := by
+  simp only [create, bind, Except.bind, pure, Except.pure, throw, throwThe, MonadExceptOf.throw, hn] at h
+  repeat' split at h
+  all_goals first | cases h | skip
+  all_goals simp_all
+
+/-! ## 7. Non-vacuity: the hypotheses of the implication-shaped theorems are satisfiable, on concrete data
+(the `mint` / `create` hypotheses are exercised on the real contracts by the harness: thousands of accepted mints) -/
+
+def exV : VendingParams :=
+  { codeId := 1, allowed := [16, 17], frozen := false, creationFee := ⟨0, 1000⟩, minMintPrice := ⟨0, 1000⟩,
+    mintFeeBps := 1000, maxTradingOffsetSecs := 10,
+    ext := { maxTokenLimit := 100, maxPerAddressLimit := 3, airdropMintPrice := ⟨0, 500⟩, airdropMintFeeBps := 5000,
+             shuffleFee := ⟨0, 100⟩ } }
+
+def exU : AnyUpd := { mintFeeBps := some 250, addIds := some [5, 5, 16], rmIds := some [17] }
+
+/-- a partial update is accepted and changes exactly the supplied fields (`C18_params_frame` is not vacuous) -/
+example : ((Params.v exV).sudo exU).toOption = some (.v { exV with mintFeeBps := 250, allowed := [16, 5, 16] }) := by decide
+
+/-- a non-native minimum price is refused (`C18_nonnative_refused_any` is not vacuous) -/
+example : ((Params.v exV).sudo { minMintPrice := some ⟨1, 5⟩ }).toOption = none := by decide
+
+/-- a sequence: the second update is refused (non-native shuffle fee), the third wins for `mint_fee_bps` -/
+example : (runUpd Params.sudo (.v exV) [exU, { shuffleFee := some ⟨2, 1⟩, mintFeeBps := some 7 }, { mintFeeBps := some 9 }]).mintFeeBps
+    = some 9 := by decide
+
+/-- the fee of a 10000 mint at 1000 bps and at 250 bps (what the directed harness scenario observes: 1000 → 250) -/
+example : mulFloor 10000 (bps 1000) = 1000 ∧ mulFloor 10000 (bps 250) = 250 := by
+  rw [C18_bps_bridge, C18_bps_bridge]; decide
+
 end LP
